@@ -471,7 +471,7 @@ func RunMain(id, tier string) int {
 	}
 
 	total := &Summary{Cells: map[string]int{}, Tallies: map[string]int{}, Hooks: map[string]uint64{}, Notes: map[string][]string{}}
-	hashes := map[uint64]struct{}{}
+	var hashes []uint64 // all shards' non-trivial case hashes; distinct ones are counted after sorting (no map: tens of millions of entries in thorough runs)
 	var incon []string
 	var viols []Violation
 	for _, p := range passes {
@@ -491,9 +491,7 @@ func RunMain(id, tier string) int {
 				mergeSummary(total, res.sum)
 			}
 			total.Evaluations += res.evals
-			for _, h := range res.hashes {
-				hashes[h] = struct{}{}
-			}
+			hashes = append(hashes, res.hashes...)
 			incon = append(incon, res.incon...)
 			viols = append(viols, res.crashes...)
 		}
@@ -546,13 +544,20 @@ func RunMain(id, tier string) int {
 	}
 
 	// evidence
+	sort.Slice(hashes, func(i, j int) bool { return hashes[i] < hashes[j] })
+	distinct := 0
+	for i, h := range hashes {
+		if i == 0 || h != hashes[i-1] {
+			distinct++
+		}
+	}
 	samples := total.Samples
 	if samples == nil {
 		samples = []interface{}{}
 	}
 	cov := map[string]interface{}{
 		"evaluations":         total.Evaluations,
-		"distinct_nontrivial": len(hashes),
+		"distinct_nontrivial": distinct,
 		"rule":                chk.Rule,
 		"samples":             samples,
 		"cells":               total.Cells,
@@ -585,7 +590,7 @@ func RunMain(id, tier string) int {
 	os.Rename(tmp, filepath.Join(Root, "evidence", id+".json"))
 
 	fmt.Printf("%s %s seed=%d: %d cases, %d distinct non-trivial, %d violation(s), %d inconclusive note(s), %.1fs\n",
-		id, tier, seed, total.Evaluations, len(hashes), nviol, len(dedup(incon)), time.Since(start).Seconds())
+		id, tier, seed, total.Evaluations, distinct, nviol, len(dedup(incon)), time.Since(start).Seconds())
 	for _, m := range dedup(incon) {
 		fmt.Printf("  inconclusive: %s\n", truncate(m, 300))
 	}
